@@ -792,3 +792,26 @@ func (g *Gen) DVHop() *Case {
 	c.tag("multi_dvchunk")
 	return c
 }
+
+// LayoutCase: every segment of a random merge tree is persisted by the code under
+// test and parsed by the frozen reference's structural dumper; the Coq model must
+// predict the same logical layout (chunk boundaries and bytes, 1-hit decisions,
+// stored blocks and offsets, doc-value headers) from the scenario alone (C10, C01, C02).
+func (g *Gen) LayoutCase(big bool) *Case {
+	c := &Case{Family: "layout"}
+	if big {
+		n := 1030 + g.R.Intn(400)
+		b := g.Batch(BatchOpts{NDocs: n, NFields: 2, NVocab: 4, ForceDV: g.R.Intn(2) == 0})
+		c.tagBatch(b, 1025)
+		c.Ops = []Op{{Code: OpBuild, CM: 1025, Batch: b}, {Code: OpLayout, Slot: 0},
+			{Code: OpMerge, CM: 1025, Ins: []MergeIn{{Slot: 0, Drops: g.subset(n, 5)}}}, {Code: OpLayout, Slot: 1}}
+		c.tag("merge")
+		return c
+	}
+	c.Ops, _ = g.mergeTree(c, 0)
+	last := g.lastSlot(c.Ops)
+	for s := 0; s <= last; s++ {
+		c.Ops = append(c.Ops, Op{Code: OpLayout, Slot: s})
+	}
+	return c
+}
